@@ -11,6 +11,9 @@ CONSTANTS
   Sym = FALSE
   NCallers = 0
   Removal = "skip"
+  MaxTwice = 0
+  SetRace = "unlocked"
+  Pick = 0
   Emit = "all"
 VIEW View
 INVARIANTS R2ok
